@@ -15,7 +15,8 @@ EXPLANATION = (
     "builder: names that can be renamed pass DnsRegistry::resolve_name (or set_new_name from name_changes).  Decides "
     "these mechanisms, not convergence of several daemons over schedules."
     " (e) The answering service is selected by its resolved (post-rename) name."
-    " (g) An interface's DnsRegistry is only created when absent (renames survive add_interface).")
+    " (g) An interface's DnsRegistry is only created when absent (renames survive add_interface)."
+    " (h) Rewritten probes restart. (i) Every comparison in matches / compare_rdata / rrdata_match pairs like with like (weight with weight).")
 UNDECIDED = ["convergence of two or three daemons (global liveness over schedules)", "text of the generated names (unit-tested string functions)",
              "opposite verdicts on both sides as a value-level property of cmp"]
 
